@@ -144,16 +144,18 @@ Proof. unfold net_mutate. destruct (net_step _ _ _ _ _ _) as [[a' nm] rt]. refle
 
 (* ---- finding: on the current tree a head mutation advertised by a StochasticActor does nothing *)
 Theorem wrapped_head_mutation_ineffective_refuted :
+  wrapper_forwards = false ->
   exists s c a r1 r2,
     ns_wrapped_head s = true /\ zlen (n_head a) < m_max_layers (n_head_cfg c) /\
     net_step s c a (NHead MAddLayer) r1 r2 = (a, ""%string, []).
 Proof.
+  intros Hw.
   exists {| ns_enc := SMlp 4 true; ns_head_in_extra := 0; ns_head_out := 2; ns_head_layer_norm := true; ns_head_noisy := false;
             ns_wrapped_head := true; ns_log_std := Some 2; ns_dueling := None |},
          {| n_min_latent := 8; n_max_latent := 128; n_enc_cfg := KMlp {| m_min_layers := 1; m_max_layers := 3; m_min_nodes := 64; m_max_nodes := 500 |};
             n_head_cfg := {| m_min_layers := 1; m_max_layers := 3; m_min_nodes := 64; m_max_nodes := 500 |} |},
          {| n_latent := 16; n_enc := EMlp [64]; n_head := [64] |}, 0, 0.
-  split; [reflexivity|]. split; [cbn; lia|reflexivity].
+  split; [reflexivity|]. split; [cbn; lia|]. cbn [net_step ns_wrapped_head]. rewrite Hw. reflexivity.
 Qed.
 
 (* ---- completion of a partial configuration is a fixed point of (build ; init_dict) ... *)
